@@ -9,6 +9,40 @@ HERE = os.path.dirname(os.path.dirname(os.path.realpath(__file__)))
 PY = '/venv/bin/python'
 
 CHECKS = {
+    'C01': dict(
+        category='exploration',
+        technique='offline exactly-once / order / integrity / correlation checker over a delivery ledger recorded at both application boundaries; real endpoints on simulated links under virtual time',
+        text='Two real endpoints (RSocketClient, RSocketServer) joined by an in-memory link (real TransportTCP on a '
+             'StreamReader, or a message transport) run 1..12 concurrent interactions of all five models started by '
+             'either side with unique pseudo-random payloads from 0 bytes to many fragments; link latency, chunking, '
+             'read size, drain blocking, handler and publisher pacing are drawn per case. Every payload handed to the '
+             'library must be delivered exactly once, intact, in order, to the matching handler/subscriber only. '
+             'Held-on-explored; evidence reports distinct schedule signatures.',
+        note='Trusts the recording applications and the virtual-time loop (stock asyncio scheduling, only the clock is '
+             'virtual). aiohttp/quart/QUIC glue code is not executed.',
+        design='4/C01'),
+    'C05': dict(
+        category='exploration',
+        technique='online trace checker: per-stream FIFO of frames entering the send path vs. reassembled fragment runs at Transport.send_frame',
+        text='The order in which frames enter each endpoint\'s send path is recorded by wrapping send_frame / '
+             'send_priority_frame per instance and compared per stream with the tap at Transport.send_frame: a fragment '
+             'run must continue with the next slice of the queued frame at the head of that stream\'s FIFO until its '
+             'last fragment; any other frame of the stream inside a run, truncation or reordering is a witness. Workload '
+             'biased to bursts of multi-fragment elements followed at once by completion / error / REQUEST_N / CANCEL, '
+             'with drain stalls. Held-on-explored.',
+        note='SETUP is the only frame allowed to overtake (stream 0). The deciding situation (frames queued behind an '
+             'unfinished run of the same stream) is counted; zero makes the run inconclusive.',
+        design='4/C05'),
+    'C06': dict(
+        category='exploration',
+        technique='conservation monitor (credit ledger) over the producing endpoint\'s own tap, checked after every send; sequence equality of application-granted vs transmitted credit',
+        text='Every producing side is one of the library\'s own sources (generator, async generator, Rx v3 / ReactiveX '
+             'v4 plain observable, back-pressure factory). After every element sent the ledger requires elements sent '
+             '<= credit received so far on that stream (from that endpoint\'s local view); at quiescence every element '
+             'covered by credit must have been delivered; REQUEST_N / initial n on the wire must equal the values the '
+             'application passed. Held-on-explored.',
+        note='Credit counted from the first fragment of the request frame; saturates at 2^31-1.',
+        design='4/C06'),
     'C02': dict(
         category='exploration',
         technique='round-trip / canonical-form oracle over enumerated boundary values and seeded random frames, differential across codec backends in two processes',
